@@ -131,19 +131,18 @@ func getKinds(c *Checker, u *unpackCtx) *kindInfo {
 		}
 		r := ev.evalFunc(u.Unpack, params)
 		ki.Eval[k] = r
-		for ci := range r.Calls {
-			call, ok := ci.(*ssa.Call)
-			if !ok || call.Parent() != u.Unpack {
+		for _, v := range u.VCalls {
+			if !r.Calls[v.Site] {
 				continue
 			}
-			cls, s := classifyFS(calleeObj(call))
+			cls, s := classifyFS(calleeObj(v.Inner))
 			if cls != "sink" {
 				continue
 			}
 			switch s.Class {
 			case "mkdir", "create", "symlink", "write":
 				for _, ai := range s.PathArgs {
-					if isExactlyInfoPath(p, call.Call.Args[ai], u) {
+					if ai < len(v.Args) && isExactlyInfoPath(p, v.Args[ai], u) {
 						ki.Materialised[k] = true
 					}
 				}
@@ -253,17 +252,16 @@ func ruleMaterialise(id string) func(*Checker) {
 			r := ki.Eval[k]
 			got := map[string]bool{}
 			if r != nil {
-				for ci := range r.Calls {
-					call, ok := ci.(*ssa.Call)
-					if !ok || call.Parent() != u.Unpack {
+				for _, v := range u.VCalls {
+					if !r.Calls[v.Site] {
 						continue
 					}
-					cls, s := classifyFS(calleeObj(call))
+					cls, s := classifyFS(calleeObj(v.Inner))
 					if cls != "sink" {
 						continue
 					}
 					for _, ai := range s.PathArgs {
-						if isExactlyInfoPath(p, call.Call.Args[ai], u) {
+						if ai < len(v.Args) && isExactlyInfoPath(p, v.Args[ai], u) {
 							got[s.Class] = true
 						}
 					}
@@ -366,8 +364,15 @@ func ruleRestore(id string) func(*Checker) {
 		}
 		// (a) after io.Copy
 		ncopy := 0
-		for _, ci := range callsTo(U, func(o *types.Func) bool { return isFunc(o, "io", "Copy") || isFunc(o, "io", "CopyN") || isFunc(o, "io", "CopyBuffer") }) {
-			call := ci.(*ssa.Call)
+		for _, v := range u.VCalls {
+			o := calleeObj(v.Inner)
+			if !(isFunc(o, "io", "Copy") || isFunc(o, "io", "CopyN") || isFunc(o, "io", "CopyBuffer")) {
+				continue
+			}
+			call, okc := v.Site.(*ssa.Call)
+			if !okc {
+				continue
+			}
 			ncopy++
 			ok, off := mustPassOK(call, isRestore, func(r *ssa.Return) bool {
 				return !mayReturnNilErr(r)
@@ -599,20 +604,20 @@ func ruleC15Truncate(c *Checker) {
 		return
 	}
 	p := c.P
-	for _, ci := range callsIn(u.Unpack) {
-		cl, ok := ci.(*ssa.Call)
+	for _, v := range u.VCalls {
+		cl, ok := v.Inner.(*ssa.Call)
 		if !ok {
 			continue
 		}
 		o := calleeObj(cl)
 		switch {
 		case isFunc(o, "os", "Create"):
-			c.pass(R, p.FuncName(u.Unpack), "os.Create", p.Pos(cl.Pos()), "os.Create truncates")
+			c.pass(R, p.FuncName(cl.Parent()), "os.Create", p.Pos(cl.Pos()), "os.Create truncates")
 		case isFunc(o, "os", "OpenFile"):
 			f, isC := constInt(cl.Call.Args[1])
 			const oWRONLY, oRDWR, oCREATE, oTRUNC = 1, 2, 0x40, 0x200
 			good := isC && f&oCREATE != 0 && f&oTRUNC != 0 && f&(oWRONLY|oRDWR) != 0
-			c.check(good, R, p.FuncName(u.Unpack), "os.OpenFile flags", p.Pos(cl.Pos()), "flags include O_CREATE|O_TRUNC and a write mode", "an entry body is written through OpenFile without O_CREATE|O_TRUNC (or with non-constant flags)")
+			c.check(good, R, p.FuncName(cl.Parent()), "os.OpenFile flags", p.Pos(cl.Pos()), "flags include O_CREATE|O_TRUNC and a write mode", "an entry body is written through OpenFile without O_CREATE|O_TRUNC (or with non-constant flags)")
 		}
 	}
 }
@@ -777,9 +782,9 @@ func ruleMeta(id string) func(*Checker) {
 			case "os.Chmod":
 				if k, isC := constInt(args[1]); isC {
 					// transient mode: must be followed by a restore
-					call, _ := s.Call.(*ssa.Call)
+					call, _ := u.siteOf(s.Call).(*ssa.Call)
 					ok := false
-					if call != nil && s.Fn == u.Unpack {
+					if call != nil {
 						ok, _ = mustPassOK(call, func(in ssa.Instruction) bool {
 							cl, ok := in.(*ssa.Call)
 							return ok && p.isRestoreFunc(cl.Common().StaticCallee())
